@@ -35,10 +35,25 @@ func c06BoundsFromFacts(fs *token.FileSet, info *types.Info, facts []guardFact, 
 		if !ok {
 			continue
 		}
+		l0, r0 := l, rr
 		l, rr = c01StripConv(info, l), c01StripConv(info, rr)
 		lc, lok := constInt(info, l)
 		rc, rok := constInt(info, rr)
 		why := fmt.Sprintf("%s: `%s` is %v", where, src(fs, fact.expr), fact.val)
+		// `uint32(v) <= C`: an upper bound on the unsigned conversion of a signed value also excludes negative values
+		// (they convert to values above every bound below 2^31)
+		hadUpper, oldUpper := out.hasUpper, out.upper
+		post := func() {
+			if out.hasUpper && (!hadUpper || out.upper < oldUpper) && out.upper < 1<<31 {
+				for _, side := range []ast.Expr{l0, r0} {
+					if call, ok := ast.Unparen(side).(*ast.CallExpr); ok && c01IsConversion(info, call) && len(call.Args) == 1 {
+						if bt, ok := info.TypeOf(call).Underlying().(*types.Basic); ok && bt.Info()&types.IsUnsigned != 0 && isVal(c01StripConv(info, call.Args[0])) {
+							out.nonNeg = true
+						}
+					}
+				}
+			}
+		}
 		switch {
 		case rok && !lok && isVal(l): // v op C
 			switch {
@@ -85,6 +100,7 @@ func c06BoundsFromFacts(fs *token.FileSet, info *types.Info, facts []guardFact, 
 				}
 			}
 		}
+		post()
 	}
 }
 
@@ -97,6 +113,9 @@ func c06SameValue(info *types.Info, sa ast.Node, a ast.Expr, sb ast.Node, b ast.
 	}
 	a = c01StripConv(info, c01Expand(info, sa, a))
 	b = c01StripConv(info, c01Expand(info, sb, b))
+	if ast.Unparen(a) == ast.Unparen(b) {
+		return true // both are the one expression a local was defined from
+	}
 	return sameChain(info, c01Chain(info, sa, a), c01Chain(info, sb, b))
 }
 
